@@ -2,7 +2,12 @@
 UDSScanner on an in-process fake transport / ECU) in a fresh temp directory and reports what the run left behind.
 
 case = {"kind": "plain"|"scanner"|"uds", "lock","art","db","hooks": bool, "pre","post","dbopen": "ok"|"fail",
-        "setup","main","tdPre","tdPost": EV, "how": {...optional concrete variants...}}
+        "setup","main","tdPre","tdPost": EV, "how": {...optional concrete variants...},
+        optional: "power","dumpcap_on","tp","props": bool (switches of Scanner / UDSScanner),
+                  "f_power","f_connect","f_ecuConnect","f_tpStart","f_propsPre","f_propsPost","f_tpStop","f_ecuClose",
+                  "f_close","f_dcStop": EV (faults of the framework's own steps), "f_dumpcap": started|none|missing|sync,
+                  "world": {"lock": free|busy|broken, "base": "ok"|"file", "runs": [[when, tag|None], ...], "latest": when|None}
+                           when < 0: a run directory with an older name, > 0: a newer name, 0: the very name this run gets}
 EV   = "ok" | "exit:<n>" | "exitx" | "conn" | "uds" | "other" | "kbd" | "cancel"
 
 Everything here runs inside a worker process (see `run_cases`); nothing is shared with the parent but the result.
@@ -19,7 +24,9 @@ import signal
 import sqlite3
 import sys
 import tempfile
+import threading
 import traceback
+import types
 from datetime import datetime
 from pathlib import Path
 
@@ -67,6 +74,11 @@ def _init_worker(repo_src: str):
         trace = None
         lockpath = None
         transports = []
+        cmd = None
+        n_close = 0
+        n_props = 0
+        dumpcaps = []
+        ecus = []
 
     def lock_held():
         if Env.lockpath is None or not Env.lockpath.exists():
@@ -82,16 +94,21 @@ def _init_worker(repo_src: str):
             os.close(fd)
 
     def mark(name):
-        meta = bool(list(Env.root.glob("art/*/run-*/META.json")))
+        ad = getattr(Env.cmd, "artifacts_dir", None)
+        meta = ad is not None and (ad / "META.json").exists()
         with open(Env.trace, "a") as f:
             f.write(f"{name} {int(lock_held())} {int(meta)}\n")
 
     async def act(point):
-        """the scripted event of one lifecycle point"""
-        ev = Env.case[point]
-        how = Env.case.get("how", {})
+        """one lifecycle point: observed, then its scripted event"""
         mark(point)
         logging.getLogger("gallia").info(f"marker {point}")
+        await fire(point)
+
+    async def fire(point):
+        """the scripted event of one lifecycle point (the command's own points by name, the framework's as f_<name>)"""
+        ev = Env.case[point] if point in ("setup", "main", "tdPre", "tdPost") else Env.case.get("f_" + point, "ok")
+        how = Env.case.get("how", {})
         if ev == "ok":
             return
         if ev.startswith("exit:"):
@@ -129,13 +146,18 @@ def _init_worker(repo_src: str):
         @classmethod
         async def connect(cls, target, timeout=None):
             t = TargetURI(target) if isinstance(target, str) else target
+            await act("connect")
             tr = cls(t)
             Env.transports.append(tr)
-            mark("connect")
             return tr
 
         async def close(self):
+            # UDSScanner.teardown closes `ecu.transport` first, then Scanner.teardown closes `self.transport`
+            Env.n_close += 1
+            point = "ecuClose" if Env.case["kind"] == "uds" and Env.n_close == 1 else "close"
             mark("close")
+            logging.getLogger("gallia").info(f"marker {point}")
+            await fire(point)
             self.is_closed = True
 
         async def write(self, data, timeout=None, tags=None):
@@ -145,6 +167,78 @@ def _init_worker(repo_src: str):
 
         async def read(self, timeout=None, tags=None):
             return await asyncio.wait_for(self.q.get(), timeout)
+
+    class FakePowerSupply:
+        @classmethod
+        async def connect(cls, target):
+            await act("power")
+            return cls()
+
+    class FakeDumpcap:
+        def __init__(self):
+            self.stopped = False
+
+        @classmethod
+        async def start(cls, target, artifacts_dir):
+            if Env.case.get("f_dumpcap", "started") == "none":
+                return None
+            d = cls()
+            Env.dumpcaps.append(d)
+            return d
+
+        async def sync(self, timeout=1):
+            if Env.case.get("f_dumpcap", "started") == "sync":
+                await asyncio.wait_for(asyncio.Event().wait(), 0.01)  # what the real sync() does when no header shows up
+
+        async def stop(self):
+            await act("dcStop")
+            self.stopped = True
+
+    def fake_which(name):
+        mark("dumpcap")
+        return None if Env.case.get("f_dumpcap", "started") == "missing" else "/usr/bin/" + name
+
+    import gallia.command.uds as cuds
+    from gallia.services.uds.ecu import ECU
+
+    class TECU(ECU):
+        def __init__(self, *a, **k):
+            super().__init__(*a, **k)
+            Env.ecus.append(self)
+
+        async def connect(self):
+            await act("ecuConnect")
+
+        async def start_cyclic_tester_present(self, interval):
+            await act("tpStart")
+            await super().start_cyclic_tester_present(interval)
+
+        async def stop_cyclic_tester_present(self):
+            mark("tpStop")
+            logging.getLogger("gallia").info("marker tpStop")
+            if Env.case.get("f_tpStop") == "cancel" and Env.case.get("how", {}).get("tpStop") == "on-entry":
+                # Ctrl-C arrives while teardown is in the synchronous stretch before it awaits the tester-present task:
+                # the cancellation is delivered at that await
+                if Env.case.get("how", {}).get("cancel", "sigint") == "sigint":
+                    signal.raise_signal(signal.SIGINT)
+                else:
+                    asyncio.current_task().cancel()
+                await super().stop_cyclic_tester_present()
+                return
+            await super().stop_cyclic_tester_present()
+            await fire("tpStop")
+
+        async def properties(self, fresh=False, config=None):
+            Env.n_props += 1
+            await act("propsPre" if Env.n_props == 1 else "propsPost")
+            return await super().properties(fresh, config)
+
+    real = {"PowerSupply": base.PowerSupply, "Dumpcap": base.Dumpcap, "shutil": base.shutil,
+            "load_transport": plugin.load_transport, "load_ecu": cuds.load_ecu, "datetime": base.datetime}
+    base.PowerSupply = FakePowerSupply
+    base.Dumpcap = FakeDumpcap
+    base.shutil = types.SimpleNamespace(which=fake_which)
+    cuds.load_ecu = lambda oem: TECU
 
     class TPlain(AsyncScript):
         CONFIG_TYPE = AsyncScriptConfig
@@ -190,7 +284,20 @@ def _init_worker(repo_src: str):
             await super().teardown()
             await act("tdPost")
 
-    plugin.load_transport = lambda target: FakeTransport
+    class Marked:
+        """the real class behind a shim that records that the step is reached"""
+
+        def __init__(self, inner, name):
+            self.inner, self.name = inner, name
+
+        async def connect(self, target, *a, **k):
+            mark(self.name)
+            logging.getLogger("gallia").info(f"marker {self.name}")
+            return await self.inner.connect(target, *a, **k)
+
+    plugin.load_transport = lambda target: (FakeTransport if target.url.scheme == "fake"
+                                            else Marked(real["load_transport"](target), "connect"))
+    real["MarkedPowerSupply"] = Marked(real["PowerSupply"], "power")
     added = []
     orig_add, orig_rm = base.add_zst_log_handler, base.remove_zst_log_handler
 
@@ -206,13 +313,13 @@ def _init_worker(repo_src: str):
 
     base.add_zst_log_handler = add_wrap
     base.remove_zst_log_handler = rm_wrap
-    _G.update(Env=Env, cap=cap, added=added, TPlain=TPlain, TScanner=TScanner, TUDS=TUDS, lock_held=lock_held,
+    _G.update(base=base, real=real, FakePowerSupply=FakePowerSupply, Env=Env, cap=cap, added=added, TPlain=TPlain, TScanner=TScanner, TUDS=TUDS, lock_held=lock_held,
               AsyncScriptConfig=AsyncScriptConfig, ScannerConfig=ScannerConfig, UDSScannerConfig=UDSScannerConfig)
     _READY = True
 
 
 HOOK = """flock -n -x {lock} true 2>/dev/null; L=$?
-M=0; ls {root}/art/*/run-*/META.json >/dev/null 2>&1 && M=1
+M=0; [ -f "$GALLIA_ARTIFACTS_DIR/META.json" ] && M=1
 echo "{variant} $L $M" >> {trace}
 printf '%s\\n' "{variant}|${{GALLIA_HOOK-unset}}|${{GALLIA_EXIT_CODE-unset}}|${{GALLIA_ARTIFACTS_DIR-unset}}|${{GALLIA_META-unset}}" >> {root}/hooks.log
 echo "out of {variant}"
@@ -256,32 +363,62 @@ def run_concrete(case: dict) -> dict:
     return obs
 
 
+OLD_NAMES = {-3: "run-20010101-000000.000003", -2: "run-20020202-000000.000002", -1: "run-20030303-000000.000001",
+             1: "run-29970101-000000.000001", 2: "run-29980202-000000.000002", 3: "run-29990303-000000.000003"}
+FIXED_NOW = datetime(2024, 5, 6, 7, 8, 9, 123456)
+NOW_NAT = 10  # the model's name of the directory this run creates; an earlier run `when` is NOW_NAT + when
+
+
+def _closed_port():
+    import socket
+
+    s = socket.socket()
+    s.bind(("127.0.0.1", 0))
+    port = s.getsockname()[1]
+    s.close()
+    return port
+
+
 def run_case(case: dict) -> dict:
     """returns the canonical observation of one run"""
     if case.get("kind") == "concrete:discover-doip":
         return run_concrete(case)
     G = _G
-    Env, cap, added = G["Env"], G["cap"], G["added"]
+    Env, cap, added, base, real = G["Env"], G["cap"], G["added"], G["base"], G["real"]
     root = Path(tempfile.mkdtemp(prefix="c15-", dir=os.environ.get("C15_TMP", "/var/tmp")))
     obs: dict = {}
+    other_fd = None
+    watchdog = None
     try:
+        how = case.get("how", {})
+        world = case.get("world") or {}
+        wlock = world.get("lock", "free")
         Env.case, Env.root = case, root
         Env.trace = root / "trace.log"
         Env.trace.write_text("")
-        Env.lockpath = root / "lockfile" if case["lock"] else None
-        Env.transports = []
+        Env.transports, Env.dumpcaps, Env.ecus = [], [], []
+        Env.n_close = Env.n_props = 0
+        Env.cmd = None
         del cap.items[:]
         del added[:]
         kw = {}
+        lockfile = root / "lockfile"
+        if case["lock"] and wlock == "broken":
+            if how.get("lock", "nodir") == "nodir":      # the directory of the lock file does not exist
+                lockfile = root / "missing-dir" / "lockfile"
+            else:                                           # ... or is a regular file
+                (root / "plainfile").write_text("x")
+                lockfile = root / "plainfile" / "lockfile"
+        Env.lockpath = lockfile if case["lock"] else None
         if case["lock"]:
-            kw["lock_file"] = root / "lockfile"
+            kw["lock_file"] = lockfile
         if case["art"]:
             kw["artifacts_base"] = root / "art"
         if case["db"]:
             kw["db"] = root / "db" / "gallia.sqlite"
             if case.get("dbopen", "ok") == "fail":  # something that is not a database / has a foreign schema version
                 (root / "db").mkdir()
-                if case.get("how", {}).get("dbopen", "garbage") == "garbage":
+                if how.get("dbopen", "garbage") == "garbage":
                     kw["db"].write_bytes(b"this is not a database " * 64)
                 else:
                     con = sqlite3.connect(kw["db"])
@@ -296,30 +433,140 @@ def run_case(case: dict) -> dict:
                                       rc=0 if case[v] == "ok" else 3))
             kw[f"{v}_hook"] = f"sh {sp}"
         kind = case["kind"]
+        skw = {}
+        base.PowerSupply = G["FakePowerSupply"]
+        if kind != "plain":
+            skw["dumpcap"] = bool(case.get("dumpcap_on", False))
+            skw["target"] = "fake://ecu"
+            if case.get("f_connect") == "conn" and how.get("connect") == "real-refused":
+                skw["target"] = f"tcp-lines://127.0.0.1:{_closed_port()}"   # the real transport, nobody listening
+            if case.get("power", False):
+                skw["power_supply"] = "tcp://127.0.0.1:9?product_id=hmc804&channel=1"
+                if case.get("f_power") == "conn" and how.get("power") == "real-refused":
+                    skw["power_supply"] = f"tcp://127.0.0.1:{_closed_port()}?product_id=hmc804&channel=1"
+                    base.PowerSupply = real["MarkedPowerSupply"]               # the real driver, nobody listening
         if kind == "plain":
             cfg = G["AsyncScriptConfig"](**kw)
             cmd = G["TPlain"](cfg)
         elif kind == "scanner":
-            cfg = G["ScannerConfig"](target="fake://ecu", dumpcap=False, **kw)
+            cfg = G["ScannerConfig"](**skw, **kw)
             cmd = G["TScanner"](cfg)
         else:
-            cfg = G["UDSScannerConfig"](target="fake://ecu", dumpcap=False, ping=case.get("how", {}).get("ping", False),
-                                        timeout=0.3, max_retries=0, **kw)
+            cfg = G["UDSScannerConfig"](ping=how.get("ping", False), timeout=0.3, max_retries=0,
+                                        tester_present=bool(case.get("tp", False)), properties=bool(case.get("props", False)),
+                                        **skw, **kw)
             cmd = G["TUDS"](cfg)
+        Env.cmd = cmd
+
+        # ---- the world: earlier run directories, LATEST, an artifacts base that is a file ------------------
+        names = {}                                   # directory name -> the model's name (Nat)
+        wruns = world.get("runs", [])
+        fixed = any(w == 0 for w, _ in wruns)
+        now_name = "run-" + FIXED_NOW.strftime("%Y%m%d-%H%M%S.%f")
+        if case["art"]:
+            cdir = root / "art" / cmd.id
+            if world.get("base", "ok") == "file":
+                (root / "art").write_text("not a directory")
+            else:
+                for when, tag in wruns:
+                    nm = now_name if when == 0 else OLD_NAMES[when]
+                    names[nm] = NOW_NAT + when
+                    (cdir / nm).mkdir(parents=True)
+                    if tag is not None:
+                        (cdir / nm / "META.json").write_text(json.dumps({"exit_code": tag, "command": "an earlier run"}) + "\n")
+                lt = world.get("latest")
+                if lt is not None:
+                    (cdir / "LATEST").symlink_to(now_name if lt == 0 else OLD_NAMES[lt])
+        if fixed:
+            class FixedDT(datetime):
+                @classmethod
+                def now(cls, tz=None):
+                    return FIXED_NOW if tz is None else datetime.now(tz)
+
+            base.datetime = FixedDT   # only `prepare_artifacts_dir` calls now() without a time zone
+
+        # ---- the lock held by somebody else: released once the run says that it waits ------------------------
+        rel = {"n_before": None, "by": None}
+        if case["lock"] and wlock in ("busy", "interrupted"):
+            lockfile.touch()
+            other_fd = os.open(lockfile, os.O_RDONLY)
+            fcntl.flock(other_fd, fcntl.LOCK_EX | fcntl.LOCK_NB)
+
+        def release(by):
+            nonlocal other_fd
+            if other_fd is not None and rel["by"] is None:
+                rel["by"] = by
+                rel["n_before"] = len([l for l in Env.trace.read_text().split("\n") if l])
+                rel["art_before"] = cmd.artifacts_dir is not None
+                fd, other_fd = other_fd, None
+                os.close(fd)
+
+        async def wrapper():
+            loop = asyncio.get_running_loop()
+
+            main_task = asyncio.current_task()
+
+            def poll():
+                if other_fd is None:
+                    return
+                if any(isinstance(lv, int) and "waiting for flock" in m for lv, m in cap.items):
+                    if wlock == "interrupted" and rel.get("cancel_sent") is None:
+                        # Ctrl-C while the run waits; the lock is handed over only when the run is through (the blocked
+                        # flock thread has to get it before asyncio.run() can join the thread)
+                        rel["cancel_sent"] = True
+                        if how.get("cancel", "sigint") == "sigint":
+                            signal.raise_signal(signal.SIGINT)
+                        else:
+                            main_task.cancel()
+                    elif wlock != "interrupted":
+                        release("waited")
+                else:
+                    loop.call_later(0.003, poll)
+
+            if other_fd is not None:
+                loop.call_later(0.003, poll)
+            try:
+                return await cmd.entry_point()
+            finally:
+                Env.snap_tp = [e.tester_present_task is None or e.tester_present_task.done() for e in Env.ecus]
+                if wlock == "interrupted":
+                    release("after-the-interrupt")
+
+        if other_fd is not None:   # a run that blocks the event loop instead of waiting in a thread would never be released
+            def bark():
+                said = any(isinstance(lv, int) and "waiting for flock" in m for lv, m in list(cap.items))
+                release("watchdog" if said else "watchdog-before-the-run-waited")
+
+            watchdog = threading.Timer(8.0, bark)
+            watchdog.daemon = True
+            watchdog.start()
+        Env.snap_tp = []
         t_before = datetime.now().timestamp()
         try:
-            rc = asyncio.run(cmd.entry_point())
+            rc = asyncio.run(wrapper())
             obs["exit"] = f"ret:{rc}" if type(rc) is int else f"ret:{rc!r}"
         except (KeyboardInterrupt, asyncio.CancelledError) as e:
             obs["exit"] = "raise:cancelled"
             obs["exit_type"] = type(e).__name__
+            obs["exit_in_lock_wait"] = "_aquire_flock" in traceback.format_exc()
         except BaseException as e:  # noqa
             obs["exit"] = "raise:" + type(e).__name__
             obs["exit_tb"] = traceback.format_exc()[-600:]
+            obs["exit_in_artifacts"] = "prepare_artifacts_dir" in traceback.format_exc() and isinstance(e, OSError)
         t_after = datetime.now().timestamp()
+        if watchdog is not None:
+            watchdog.cancel()
+        release("after-the-run")   # the run never waited for us
 
         # ---- trace -------------------------------------------------------------------------------
-        obs["trace"] = [l for l in Env.trace.read_text().split("\n") if l]
+        tr = [l for l in Env.trace.read_text().split("\n") if l]
+        if rel["n_before"]:   # actions performed while somebody else still had the lock: the lock was not ours
+            tr = [" ".join([l.split(" ")[0], "0", l.split(" ")[2]]) if i < rel["n_before"] else l for i, l in enumerate(tr)]
+        obs["trace"] = tr
+        obs["waited"] = any(isinstance(lv, int) and "waiting for flock" in m for lv, m in cap.items)
+        if case["lock"] and wlock in ("busy", "interrupted"):
+            obs["lock_wait"] = rel["by"]
+            obs["art_before_lock"] = bool(rel.get("art_before"))
         # ---- hooks -------------------------------------------------------------------------------
         times = {}
         hooks = []
@@ -341,14 +588,14 @@ def run_case(case: dict) -> dict:
                         h["meta"] = "bad"
                 hooks.append(h)
         obs["hooks"] = hooks
-        # ---- META.json ---------------------------------------------------------------------------
+        # ---- artifacts directory, META.json ------------------------------------------------------
+        own = cmd.artifacts_dir
         if case["art"]:
-            metas = list(root.glob("art/*/run-*/META.json"))
-            if not metas:
+            if own is None or not (own / "META.json").exists():
                 obs["meta"] = "none"
             else:
                 try:
-                    m = json.loads(metas[0].read_text())
+                    m = json.loads((own / "META.json").read_text())
                     obs["meta"] = str(m["exit_code"])
                     times["ms"], times["me"] = _ts(m["start_time"]), _ts(m["end_time"])
                     obs["meta_cmd"] = m["command"] == f"{type(cmd).__module__}.{type(cmd).__name__}"
@@ -356,9 +603,32 @@ def run_case(case: dict) -> dict:
                     obs["meta_cfg"] = re_cfg.model_dump_json() == cfg.model_dump_json()
                 except Exception as e:
                     obs["meta"] = f"bad:{e!r}"
-            obs["env_file"] = bool(list(root.glob("art/*/run-*/ENV")))
+            obs["env_file"] = own is not None and (own / "ENV").exists()
+            cdir = root / "art" / cmd.id
+            runs = []
+            if cdir.is_dir():
+                present = sorted(p.name for p in cdir.glob("run-*"))
+                ordered = [n for n in names if n in present] + [n for n in present if n not in names]
+                for n in ordered:
+                    mf = cdir / n / "META.json"
+                    tag = None
+                    if mf.exists():
+                        try:
+                            tag = json.loads(mf.read_text())["exit_code"]
+                        except Exception:
+                            tag = -1
+                    runs.append([names.get(n, NOW_NAT), tag])
+                lk = cdir / "LATEST"
+                obs["latest"] = names.get(os.readlink(lk), NOW_NAT) if lk.is_symlink() else None
+            else:
+                obs["latest"] = None
+            obs["runs"] = runs
+            obs["artdir"] = None if own is None else names.get(own.name, NOW_NAT)
+            obs["artdir_under_base"] = own is None or own.parent == cdir.absolute()
         else:
             obs["meta"] = "off"
+            obs["runs"], obs["latest"] = [], None
+            obs["artdir"] = None if own is None else NOW_NAT
         # ---- database ----------------------------------------------------------------------------
         dbh = cmd.db_handler
         obs["db_closed"] = dbh is None or dbh.connection is None
@@ -415,7 +685,7 @@ def run_case(case: dict) -> dict:
         # ---- log file ----------------------------------------------------------------------------
         lg = logging.getLogger("gallia")
         leftover = [h for h in lg.handlers if h is not cap]
-        if case["art"]:
+        if case["art"] and own is not None:
             closed = (len(cmd.log_file_handlers) == 0 and not leftover and len(added) == 1
                       and all(h.file.closed for h in added))
             obs["log_closed"] = closed
@@ -428,14 +698,14 @@ def run_case(case: dict) -> dict:
                     on = False
                 elif on and lv >= 10:
                     want.append(msg)
-            logs = list(root.glob("art/*/run-*/log.json.zst"))
-            if not logs:
+            logf = own / "log.json.zst"
+            if not logf.exists():
                 obs["log"] = "nofile"
             else:
                 from gallia.log import PenlogReader
 
                 try:
-                    with PenlogReader(logs[0]) as r:
+                    with PenlogReader(logf) as r:
                         got = [rec.data for rec in r.records()]
                     if closed:
                         same = len(got) == len(want) and all(g == w or g.startswith(w + "\n") for g, w in zip(got, want))
@@ -471,12 +741,23 @@ def run_case(case: dict) -> dict:
                     obs["lock_fd_closed"] = True
         else:
             obs["lock_released"] = True
-        # ---- transport ---------------------------------------------------------------------------
+        # ---- transport, tester-present task, dumpcap -----------------------------------------------
         obs["transport_closed"] = all(t.is_closed for t in Env.transports)
         obs["n_transports"] = len(Env.transports)
+        obs["tp_stopped"] = all(Env.snap_tp)
+        obs["dc_stopped"] = all(d.stopped for d in Env.dumpcaps)
     except BaseException as e:  # noqa
         obs["harness_error"] = traceback.format_exc()[-1500:]
     finally:
+        base.datetime = real["datetime"]
+        base.PowerSupply = G["FakePowerSupply"]
+        if watchdog is not None:
+            watchdog.cancel()
+        if other_fd is not None:
+            try:
+                os.close(other_fd)
+            except OSError:
+                pass
         shutil.rmtree(root, ignore_errors=True)
     return obs
 
